@@ -2,7 +2,7 @@
    sumbool become OCaml's; nat, N, positive stay the extracted inductive types. *)
 From Coq Require Import ExtrOcamlBasic.
 From LexVerif Require Import Base CharClass RangeMap Regex Spec SpecExec LexSpec Nfa Dfa NfaToDfa
-     Codegen Runtime GenCode GenCodeChecks Driver SpecDef Harness CharGen Instance Parser DefParser NfaSem ClosedChecker RulesetSemProofs.
+     Codegen Runtime GenCode GenCodeChecks ProgIso Driver SpecDef Harness CharGen Instance Parser DefParser NfaSem ClosedChecker RulesetSemProofs.
 From LexVerif.Gen Require Import GenTables GenConsts GenOracle.
 Extraction Language OCaml.
 Extraction "lexmodel.ml"
@@ -10,4 +10,4 @@ Extraction "lexmodel.ml"
   rm_insert rm_insert_ranges rm_remove_ranges model_r2m model_generate model_generate_table
   builtin_table oracle_table agree_on_scalars first_difference pairs_wf compiled_member
   binary_search guard_chain in_pairs width_of dmatch
-  parse_regex print_re dfa_closed_b nfa_targets_ok_b nfa_ranges_wf_b dfa_wf_b flags_sound_b dfa_shape_ok_b parse_def number_tops gen_program make_program MAX_GUARD_SIZE chars_nodup_b ctx_code_ok_b.
+  parse_regex print_re dfa_closed_b nfa_targets_ok_b nfa_ranges_wf_b dfa_wf_b flags_sound_b dfa_shape_ok_b parse_def number_tops gen_program make_program MAX_GUARD_SIZE chars_nodup_b ctx_code_ok_b prog_iso_b.
